@@ -301,7 +301,10 @@ func checkURIAgainstRedirects(client Client, uri string) error {
 		for _, uriGlob := range globClient.RedirectURIGlobs() {
 			isMatch, err := doublestar.Match(uriGlob, uri)
 			if err != nil {
-				return oidc.ErrServerError().WithParent(err)
+				// the requested uri is not validated at this point: the error must never be redirected to it
+				return oidc.ErrInvalidRequestRedirectURI().WithParent(err).
+					WithDescription("The client's redirect_uri configuration is invalid. " +
+						"If you have any questions, you may contact the administrator of the application.")
 			}
 			if isMatch {
 				return nil
